@@ -17,12 +17,38 @@
    NOT proved (covered by the correspondence / search of tools/props/c09.py only):
      * that a cycle is found in every phase under rounding (SvaOk is reached), vertex-simplicity of the emitted cycles,
        and the quantitative bound "within relative 1e-9 of the true minimum" for all inputs;
-     * C09_iso_refuted in full (the ISO-trees model emitting an empty cycle): there is no Gallina model of
-       ISOCyclesBuilder; D9 is observed on the implementation only (known_findings.d/C09.json). *)
+     * for the tree-based variants: that every phase finds an answer (refuted for the isometric collection, below) and that
+       the FVS variant does (C09_binary64_trees_full_stmt, a Definition that is not asserted).
+
+   Tree-based variants (mcb_sva_fvs_trees / mcb_sva_iso_trees; TreesModel.v for an arbitrary weight type, TreesFloatModel.v for
+   the pieces that differ on doubles and for the binary64 instances; proofs in FloatTreesProofs.v):
+     C09_trees_structural           ARBITRARY weight type: whenever the trees model (any builder; first-answering resolution)
+                                    returns SvaOk, the emitted family has m-n+c elements, all in the cycle space,
+                                    GF(2)-independent and spanning; every (cycle, weight) is a candidate edge e = (a,b) plus
+                                    two walks from one root to a and to b, all edges distinct, with weight
+                                    w(e) + first path upwards + second path upwards folded left to right; the returned total is
+                                    the left-to-right fold of these weights in emission order
+     C09_trees_accept_structural    the same for every run the acceptance model accepts (any resolution of std::sort's ties)
+     C09_trees_as_executed_structural / C09_binary64_trees_partial
+                                    the same for the model that is compared bit-exactly with the code (ISO builder with the
+                                    std::map default, candidates scanned in std::sort's recovered order, the loop that goes on
+                                    after an empty answer), whenever every phase found an answer
+     C09_trees_empty_answer_is_nocycle   a run that TreesModel.v ends with SvaNoCycle k is, in the loop that goes on, an empty
+                                    cycle of weight w0 at phase k with k found phases before it
+     C09_iso_builder_refines        the ISO builder as executed agrees with the generic model wherever that returns CdOk
+     C09_iso_d9_in_model            D9 inside the binary64 model: on the stored witness the isometric collection is empty, the
+                                    model ends with SvaNoCycle 0 / emits one EMPTY cycle and returns +0.0 (what the code does),
+                                    the FVS variant returns the cycle, and over Z the isometric variant returns the cycle (16)
+     C09_iso_d9b_in_model           D9b inside the binary64 model: the run of the code bit for bit (5-cycle + triangle,
+                                    0x1.2666666666666p+2 = 4.6) while over Z the minimum 36 (= 3.6) is returned and the FVS
+                                    variant on binary64 returns 0x1.ccccccccccccdp+1 (3.6); the generic ISO model stops with
+                                    CdInconsistent on this input
+     C09_iso_all_found_refuted      "every phase of mcb_sva_iso_trees finds a cycle on weights in [1e-3,1e3]" is FALSE of the
+                                    binary64 model (witness D9). *)
 From Coq Require Import List Arith ZArith.
 From Coq Require Floats.   (* not imported: Print Assumptions then names the primitives PrimFloat.add etc. in full *)
 From Parmcb Require Import GraphModel GraphSpec McbSpec DePinaSpec SvaModel SignedModel SignedFloatModel LexSPModel
-     SignedProofs FloatProofs.
+     CandidatesModel TreesModel TreesFloatModel SignedProofs FloatProofs FloatTreesProofs.
 Import ListNotations.
 
 Theorem C09_structural (W : Type) (w0 : W) (wadd : W -> W -> W) (wltb : W -> W -> bool)
@@ -87,4 +113,132 @@ Example C09_nonvacuous :
 Proof.
   split; [exact d9_simple|]. split; [exact d9_roots_cover|].
   eexists _, _, _. split; [exact d9_signed_ok|reflexivity].
+Qed.
+
+
+(* ==== the tree-based variants ======================================================================================= *)
+
+(* arbitrary weight type, the trees model of TreesModel.v (any builder, ties of std::sort resolved by collection order) *)
+Theorem C09_trees_structural (W : Type) (w0 : W) (wadd : W -> W -> W) (wltb : W -> W -> bool)
+        (b : tbuilder) (g : graph) (wts : list W) (roots picks : list nat)
+        (cycles : list (list nat)) (total : W) (sup : list vec) :
+  simple_graph g -> (forall v, v < nv g -> In v roots) ->
+  mcb_sva_trees_first W w0 wadd wltb b g wts roots picks = TRun (SvaOk cycles total sup) ->
+  has_cycle_space_dimension g (length cycles) /\ Forall (in_cycle_space g) cycles
+  /\ indep cycles /\ spans (in_cycle_space g) cycles
+  /\ exists ws, Forall2 (tree_cycle_shape W w0 wadd g wts) cycles ws /\ total = fold_left wadd ws w0.
+Proof. exact (fun Hs Hr => ft_first_structural W w0 wadd wltb g wts roots Hs Hr b picks cycles total sup). Qed.
+Print Assumptions C09_trees_structural.
+
+(* ... and every run the acceptance model accepts (whatever arrangement std::sort chose among equal recorded weights) *)
+Theorem C09_trees_accept_structural (W : Type) (w0 : W) (wadd : W -> W -> W) (wltb : W -> W -> bool)
+        (b : tbuilder) (g : graph) (wts : list W) (roots picks : list nat)
+        (cycles : list (list nat)) (total : W) :
+  simple_graph g -> (forall v, v < nv g -> In v roots) ->
+  mcb_sva_trees_accept W w0 wadd wltb b g wts roots picks cycles = Some total ->
+  exists cs, length cs = length cycles
+  /\ has_cycle_space_dimension g (length cs) /\ Forall (in_cycle_space g) cs
+  /\ indep cs /\ spans (in_cycle_space g) cs
+  /\ exists ws, Forall2 (tree_cycle_shape W w0 wadd g wts) cs ws /\ total = fold_left wadd ws w0.
+Proof. exact (fun Hs Hr => ft_accept_structural W w0 wadd wltb g wts roots Hs Hr b picks cycles total). Qed.
+Print Assumptions C09_trees_accept_structural.
+
+(* the model that is compared bit-exactly with the code: ISO builder with the std::map default, candidates scanned in the
+   arrangement `order` left by std::sort, the loop that goes on after an empty answer *)
+Theorem C09_trees_as_executed_structural (W : Type) (w0 : W) (wadd : W -> W -> W) (wltb : W -> W -> bool)
+        (b : tbuilder) (g : graph) (wts : list W) (roots picks order : list nat)
+        (phases : list (go_phase W)) (total : W) (sup : list vec) :
+  simple_graph g -> (forall v, v < nv g -> In v roots) ->
+  mcb_sva_trees_go W w0 wadd wltb b g wts roots picks order = GoOk phases total sup ->
+  Forall (fun p => gp_found p = true) phases ->
+  let cycles := map gp_cycle phases in
+  has_cycle_space_dimension g (length cycles) /\ Forall (in_cycle_space g) cycles
+  /\ indep cycles /\ spans (in_cycle_space g) cycles
+  /\ exists ws, Forall2 (tree_cycle_shape W w0 wadd g wts) cycles ws /\ total = fold_left wadd ws w0.
+Proof. exact (fun Hs Hr => ft_go_structural W w0 wadd wltb g wts roots Hs Hr b picks order phases total sup). Qed.
+Print Assumptions C09_trees_as_executed_structural.
+
+(* what TreesModel.v reports as SvaNoCycle k is, in the loop that goes on as the code does, an EMPTY cycle of weight w0 emitted
+   at phase k after k phases that found *)
+Theorem C09_trees_empty_answer_is_nocycle (W : Type) (w0 : W) (wadd : W -> W -> W) (wltb : W -> W -> bool)
+        (b : tbuilder) (g : graph) (wts : list W) (roots picks order : list nat) (k : nat)
+        (phases : list (go_phase W)) (total : W) (sup : list vec) :
+  mcb_sva_trees_order W w0 wadd wltb b g wts roots picks order = TRun (SvaNoCycle k) ->
+  mcb_sva_trees_go W w0 wadd wltb b g wts roots picks order = GoOk phases total sup ->
+  exists pre p post, phases = pre ++ p :: post /\ length pre = k /\ Forall (fun q => gp_found q = true) pre
+                     /\ gp_found p = false /\ gp_cycle p = [] /\ gp_weight p = w0.
+Proof. exact (ft_order_nocycle_go W w0 wadd wltb g wts roots b picks order k phases total sup). Qed.
+Print Assumptions C09_trees_empty_answer_is_nocycle.
+
+(* the ISO builder as executed (std::map::operator[] default) agrees with the generic model wherever that returns CdOk *)
+Theorem C09_iso_builder_refines (W : Type) (w0 : W) (wadd : W -> W -> W) (wltb : W -> W -> bool)
+        (g : graph) (wts : list W) r :
+  iso_cycles W w0 wadd wltb g wts = CdOk r -> iso_cycles_dflt W w0 wadd wltb g wts = CdOk r.
+Proof. exact (ft_iso_cycles_dflt_refines W w0 wadd wltb g wts r). Qed.
+Print Assumptions C09_iso_builder_refines.
+
+(* the binary64 instance: the structural part of C09_binary64_trees_full_stmt *)
+Theorem C09_binary64_trees_partial (b : tbuilder) (g : graph) (wts : list PrimFloat.float) (roots picks order : list nat)
+        (phases : list (go_phase PrimFloat.float)) (total : PrimFloat.float) (sup : list vec) :
+  simple_graph g -> (forall v, v < nv g -> In v roots) ->
+  tf_mcb_sva_trees_go b g wts roots picks order = GoOk phases total sup ->
+  Forall (fun p => gp_found p = true) phases ->
+  let cycles := map gp_cycle phases in
+  has_cycle_space_dimension g (length cycles) /\ Forall (in_cycle_space g) cycles
+  /\ indep cycles /\ spans (in_cycle_space g) cycles
+  /\ exists ws, Forall2 (tree_cycle_shape PrimFloat.float f64_zero f64_add g wts) cycles ws
+               /\ total = fold_left PrimFloat.add ws PrimFloat.zero.
+Proof.
+  exact (fun Hs Hr => ft_go_structural PrimFloat.float f64_zero f64_add f64_ltb g wts roots Hs Hr b picks order phases total sup).
+Qed.
+Print Assumptions C09_binary64_trees_partial.
+
+(* the full statement for a builder (NOT asserted; refuted for TbIso below, covered by the search for TbFvs): on weights of the
+   domain every phase finds an answer — with C09_binary64_trees_partial this would make every run a cycle-space basis.  The
+   quantitative clauses of C09 (within 1e-9 of the exact sum / of the true minimum) are not even stated: they need the exact
+   real value of a double (Flocq) and a whole-algorithm rounding-error analysis. *)
+Definition C09_binary64_trees_full_stmt (b : tbuilder) : Prop := trees_all_found_stmt b.
+
+(* D9 inside the binary64 model *)
+Theorem C09_iso_d9_in_model :
+  (exists trees, tf_iso_cycles d9_graph d9_weights = CdOk (trees, []))
+  /\ tf_mcb_sva_trees_first TbIso d9_graph d9_weights d9_roots [] = TRun (SvaNoCycle 0)
+  /\ tf_mcb_sva_trees_order TbIso d9_graph d9_weights d9_roots [] [] = TRun (SvaNoCycle 0)
+  /\ tf_mcb_sva_trees_go TbIso d9_graph d9_weights d9_roots [] []
+     = GoOk [{| gp_signed := [0]; gp_cycle := []; gp_weight := PrimFloat.zero; gp_found := false |}] PrimFloat.zero [[0]]
+  /\ tf_mcb_sva_trees_go TbFvs d9_graph d9_weights d9_roots [3] [0]
+     = GoOk [{| gp_signed := [0]; gp_cycle := [0; 1; 2; 3]; gp_weight := d9_total; gp_found := true |}] d9_total [[0]]
+  /\ mcb_sva_trees_first_Z TbIso d9_graph d9_weights_Z d9_roots [] = TRun (SvaOk [[0; 1; 2; 3]] 16%Z [[0]]).
+Proof.
+  exact (conj d9_iso_collection_empty (conj d9_iso_first_nocycle (conj d9_iso_order_nocycle (conj d9_iso_go (conj d9_fvs_go d9_iso_Z))))).
+Qed.
+Print Assumptions C09_iso_d9_in_model.
+
+(* D9b inside the binary64 model (d9b_w5 = 0x1.6666666666666p+1, d9b_w3 = 0x1.cccccccccccccp+0, d9b_total = 0x1.2666666666666p+2,
+   d9b_fvs_total = 0x1.ccccccccccccdp+1: FloatTreesProofs.v) *)
+Theorem C09_iso_d9b_in_model :
+  tf_mcb_sva_trees_go TbIso d9b_graph d9b_weights d9b_roots [] [0; 1]
+  = GoOk [{| gp_signed := [1]; gp_cycle := [1; 2; 3; 4; 5]; gp_weight := d9b_w5; gp_found := true |};
+          {| gp_signed := [1; 2]; gp_cycle := [0; 2; 4]; gp_weight := d9b_w3; gp_found := true |}]
+         d9b_total [[0]; [0; 1]]
+  /\ mcb_sva_trees_first_Z TbIso d9b_graph d9b_weights_Z d9b_roots [] = TRun (SvaOk [[0; 1; 3; 5]; [0; 2; 4]] 36%Z [[0]; [1]])
+  /\ (exists phases sup, tf_mcb_sva_trees_go TbFvs d9b_graph d9b_weights d9b_roots [3] [0; 1] = GoOk phases d9b_fvs_total sup
+                          /\ map gp_cycle phases = [[0; 1; 3; 5]; [0; 2; 4]])
+  /\ tf_iso_cycles_strict d9b_graph d9b_weights = CdInconsistent.
+Proof. exact (conj d9b_iso_go (conj d9b_iso_Z (conj d9b_fvs_go d9b_strict_inconsistent))). Qed.
+Print Assumptions C09_iso_d9b_in_model.
+
+Theorem C09_iso_all_found_refuted : ~ C09_binary64_trees_full_stmt TbIso.
+Proof. exact d9_iso_all_found_refuted. Qed.
+Print Assumptions C09_iso_all_found_refuted.
+
+(* the hypotheses of the structural theorems about the trees are satisfiable on a concrete input with inexact weights (D9b's graph,
+   FVS variant: a simple graph, roots covering the vertices, a completed run in which both phases found) *)
+Example C09_trees_nonvacuous :
+  simple_graph d9b_graph /\ (forall v, v < nv d9b_graph -> In v d9b_roots)
+  /\ exists phases total sup, tf_mcb_sva_trees_go TbFvs d9b_graph d9b_weights d9b_roots [3] [0; 1] = GoOk phases total sup
+       /\ Forall (fun p => gp_found p = true) phases /\ length phases = 2.
+Proof.
+  split; [exact d9b_simple|]. split; [exact d9b_roots_cover|].
+  eexists _, _, _. split; [vm_compute; reflexivity|]. split; [repeat constructor|reflexivity].
 Qed.
